@@ -107,6 +107,13 @@ CLAIMED = {
          'mrf = arf × modf at the tabulated energies, aeff > 0, 0 ≤ modf ≤ 1, rmf rows, channel bounds, on-axis vignetting, EEF), load_irf_set members.',
          'Lean kernel (core only); generator of the tables (witness tables untrusted, kernel-checked); partial: numerical relations are data facts decided by enumeration, quick tier loads DU 1 + a seeded third. '
          'gray_tow and chrgparams files have no loader flag and are outside the six kinds (recorded).'),
+ 'C11': ('proof', 'Lean 4 determinism theorem on an effect model + kernel-decided generated table of random-number call sites, with a process-history oracle',
+         'deterministic (a program that seeds first and has no unseeded source and no in-place mutation of cached objects is independent of the initial world), fresh_breaks_determinism, '
+         'sites_ok (every RNG call site in the import closure of the seven seeded applications is a module-level numpy.random function, every application seeds, guards are None-tests), '
+         'du_streams_distinct_* on the per-DU seed expression regenerated from the source; oracle: cold run vs re-runs after random histories of perturbations, bitwise column comparison, '
+         'DU alone vs after the other DUs with the shared ROI, seeds incl. 0, four post-processing applications.',
+         'Lean kernel (core only); static extractor (cross-checked with run-time call sites); partial: PRNG abstract; xpobssim driven by a DU-loop replica with a synthetic timeline; '
+         'xpcalib/xpphotonlist static only (not runnable offline).'),
 }
 NOT_YET = 'check not built yet in this round (work in progress; see DESIGN.md section 7 for the planned model and theorems)'
 
